@@ -15,7 +15,7 @@ func registerC12() {
 		Level: "exploration",
 		Rule: "PRNG sequences mixing explicit timestamps (field 253), compressed-timestamp records (all 32 offsets, rollovers, runs of up to 200) and local timestamps over " +
 			"record / monitoring / activity / lap / device_info messages, messages without a timestamp field and unknown messages, both byte orders, local types 0-3; every time " +
-			"field of every decoded message is compared with a 30-line reference state machine (ref/interp.go); family chains: 2-3 such sequences concatenated and decoded by DecodeChained: the time reference starts afresh in every file (a compressed record or local timestamp before a file's first explicit timestamp has no reference); non-trivial: at least one compressed record with a reference, " +
+			"field of every decoded message is compared with a 30-line reference state machine (ref/interp.go); one file type in six is a course file with course_point messages (field 1 is called timestamp, there is no field 253); family chains: 2-3 such sequences concatenated and decoded by DecodeChained: the time reference starts afresh in every file (a compressed record or local timestamp before a file's first explicit timestamp has no reference); non-trivial: at least one compressed record with a reference, " +
 			"or a local timestamp, was compared; distinct by stream digest",
 		Assume: []string{
 			"not generated because the statement leaves them open: an explicit timestamp of value 0 followed by compressed records; field 253 in a message or definition the profile does not know",
